@@ -200,3 +200,35 @@ pub fn cleanup(dir: &Path, keep: bool) {
 pub fn read_or_empty(pth: &Path) -> Option<Vec<u8>> {
     std::fs::read(pth).ok()
 }
+
+/// Attach `img` to a free loop device and create a PRIVATE block device node for it in
+/// `dir` (same major/minor), so that a buggy build that unlinks or replaces its output
+/// can never damage the system's /dev/loopN nodes. Returns (system device, private node).
+pub fn attach_loop(img: &Path, dir: &Path) -> Option<(String, PathBuf)> {
+    use std::os::unix::fs::MetadataExt;
+    let out = std::process::Command::new("losetup").args(["-f", "--show"]).arg(img).output().ok()?;
+    if !out.status.success() {
+        return None;
+    }
+    let dev = String::from_utf8_lossy(&out.stdout).trim().to_string();
+    let node = dir.join("blkdev");
+    let _ = std::fs::remove_file(&node);
+    let made = std::fs::metadata(&dev).ok().and_then(|m| {
+        let c = std::ffi::CString::new(node.display().to_string()).ok()?;
+        let rc = unsafe { libc::mknod(c.as_ptr(), libc::S_IFBLK | 0o600, m.rdev()) };
+        if rc == 0 {
+            Some(())
+        } else {
+            None
+        }
+    });
+    if made.is_none() {
+        detach_loop(&dev);
+        return None;
+    }
+    Some((dev, node))
+}
+
+pub fn detach_loop(dev: &str) {
+    let _ = std::process::Command::new("losetup").arg("-d").arg(dev).status();
+}
